@@ -212,8 +212,10 @@ Section SessionManager.
         match find_sess (sw_sessions w) id with
         | Some _ => (mkWorld (sw_db w) (remove_sess (sw_sessions w) id) (sw_closing w ++ [mkClosing id false None]), ODone)
         | None =>
-            (* an expired session whose delete() is still running is still in sm.sessions: CloseSession removes it and
-               runs a second delete() *)
+            (* an expired session whose delete() is still running is still in sm.sessions: CloseSession removes it, waits
+               for the session goroutine (s.Close(): the first delete() has returned by then) and runs a second
+               delete().  The model lets the two overlap: more interleavings than the code has, which is on the safe
+               side for the theorems (they hold for every trace); no witness uses this branch. *)
             match take_closing cl_expired id (sw_closing w) with
             | Some (c, rest) =>
                 (mkWorld (sw_db w) (sw_sessions w) (rest ++ [mkClosing id false (cl_keys c); mkClosing id false None]), ODone)
